@@ -37,6 +37,9 @@ CHECKS = {
             "Every output of every save in the workload is parsed by a reader that shares no code with the library and trusts only the header tables; declared sizes are compared with "
             "what the writer emitted between Block hook events and with what the reader consumes on reload; string-index fields are located through the StringRef hook. "
             "The workload writes files after plain round trips, second generation, API construction and random edit sequences in all versions.", "3/C07"),
+    "C13": ("exploration", "runtime monitor: API round-trip oracle (setter/creator -> getter, in memory and after save+reload) with storage-quantisation models, over versions x boundary vertex/triangle counts, under ASan/UBSan",
+            "Meshes at the sizes {1,2,3,...,65535,65536,70000} are created in six versions; every getter is compared with the given data under the exact storage model (half-float "
+            "rounding, byte quantisation) before and after raw/default save+reload, each setter is followed by all getters and by an all-arrays length check.", "3/C13"),
     "C15": ("fault_enumeration", "fault enumeration under ASan/UBSan/libstdc++ assertions: every reference-field stratum x corruption kind (hook-located offsets, bytes patched outside the library), fork-isolated with CPU-time hang detection",
             "Reference fields are located by the BlockRef hook of the traced raw save and patched directly in the bytes; strata (block type, target class) x 8 corruption kinds plus "
             "2-3-fold combinations are enumerated for real, synthesised (every block type) and API-built files; each fault runs load, query battery, copy, both saves and reload in a "
